@@ -295,6 +295,20 @@ func (s *Schema) ReferencedBy(tbl, col string, self bool) []string {
 
 var reIdent = regexp.MustCompile(`^[a-z_][a-z0-9_]*$`)
 
+// ExoticName reports whether s can be a column name that is not a plain identifier: printable, without
+// quote characters, brackets of the [] kind, NUL or line breaks.
+func ExoticName(s string) bool {
+	if s == "" || strings.TrimSpace(s) != s {
+		return false
+	}
+	for _, r := range s {
+		if r < 0x20 || r == '"' || r == '`' || r == '\'' || r == '[' || r == ']' || r == '\\' || r == 0x7f {
+			return false
+		}
+	}
+	return true
+}
+
 // InlineName is Atlas's documented name for the index SQLite creates for an inline UNIQUE constraint:
 // <table>_<col>_..._<col>.
 func InlineName(table string, cols []string) string {
@@ -324,7 +338,13 @@ func (s Schema) Validate() error {
 		seenC := map[string]bool{}
 		for _, c := range t.Cols {
 			if !reIdent.MatchString(c.Name) {
-				return fmt.Errorf("%s.%s: bad name", t.Name, c.Name)
+				// an "exotic" column name (what CREATE TABLE … AS SELECT count(*), lower(x) … yields, or a
+				// name with blanks / commas / keywords in it) is accepted on a free column: one that no
+				// key, index, foreign key, check or generated column mentions (HCL cannot reference it).
+				// The generators never produce such names; monitors build them by hand.
+				if !ExoticName(c.Name) || c.Gen != nil || c.AutoInc || len(t.ColUses(c.Name)) > 0 || len(s.ReferencedBy(t.Name, c.Name, true)) > 0 {
+					return fmt.Errorf("%s.%s: bad name", t.Name, c.Name)
+				}
 			}
 			if seenC[c.Name] {
 				return fmt.Errorf("%s.%s: duplicate column", t.Name, c.Name)
